@@ -27,6 +27,7 @@ import (
 	"os"
 	"path/filepath"
 	"sort"
+	"strconv"
 	"strings"
 	"syscall"
 	"testing"
@@ -69,6 +70,7 @@ type c03Node struct {
 	captures         []*c03Capture // file descriptor 2 (application + audit log) and 1 (echo's own logger)
 	files            map[string]c03FileStamp
 	caseNo           int
+	route            string            // crypto.storage route the node was configured through
 	sentinel         *ecdsa.PrivateKey // a key file OUTSIDE datadir/crypto (datadir/c03sentinel_private.pem), not a node key
 	// statistics
 	bytesResp, bytesLog, bytesFiles int64
@@ -156,7 +158,14 @@ func c03StartNode(t *testing.T) *c03Node {
 		_ = os.WriteFile(filepath.Join(pol, "c03.json"), []byte(c03Policy), 0o644)
 		t.Setenv("NUTS_POLICY_DIRECTORY", pol)
 		t.Setenv("NUTS_DIDMETHODS", "web,nuts")
-		t.Setenv("NUTS_CRYPTO_STORAGE", "fs")
+		// crypto configuration route: crypto.storage unset (non-strict: the default route) on shard 0 — the quick tier and
+		// replays — and on even shards, explicit "fs" on odd shards of the thorough tier (TestVerif_C03_Route in package
+		// crypto drives both routes in-process)
+		n.route = "unset"
+		if sh, _ := strconv.Atoi(os.Getenv("VERIF_SHARD")); sh%2 == 1 {
+			n.route = "fs"
+			t.Setenv("NUTS_CRYPTO_STORAGE", "fs")
+		}
 		t.Setenv("NUTS_VERBOSITY", "trace")
 		t.Setenv("NUTS_HTTP_LOG", "metadata-and-body")
 		t.Setenv("NUTS_INTERNALRATELIMITER", "false")
